@@ -23,7 +23,11 @@ MatchValue(o, e, r) ==
   /\ Eq(r.post, r.ctx)
 RecOk(r) ==
   LET c == r.call IN
-  CASE c.op = "get"      -> MatchValue(r.out, GetRef(r.ctx, c.path, c.dflt), r)
+  CASE c.op = "get"      -> MatchValue(r.out, GetRefC(c, r.ctx), r)
+    [] c.op = "getd"     -> \E e \in GetDOutcomes(c, r.ctx) : MatchValue(r.out, e, r)
+    [] c.op = "format"   -> /\ Eq(r.post, r.ctx)
+                            /\ IF AllPresent(r.ctx, c.tpl) THEN r.out.ok /\ Eq(r.out.r, r.rs)
+                               ELSE ~r.out.ok /\ r.out.exc = "LenaKeyError"
     [] c.op = "contains" -> r.out.ok /\ r.out.r = ContainsRef(r.ctx, c.path) /\ Eq(r.post, r.ctx)
     [] c.op = "update"   -> /\ \E x \in UpdateOutcomes(c, r.ctx, r.rs) : Matches(r.out, r.post, x)
                             /\ FrameOK(r.ctx, r.post, c.path)
